@@ -1,0 +1,27 @@
+//go:build verif
+
+// Contracts for the verification machinery in /verif (comment-only; no code).
+// vswarm: the size guard of tell and ask (C09) and the error mapping of ask (C11).
+
+package vswarm
+
+//@ func (*SecureRealm).getSwarm
+//@   pure
+//@   requires r != nil
+//@   ensures ret != nil ==> inv(ret.asks)
+//@   trusted
+//@
+//@ func (*SecureRealm).tell
+//@   noframe
+//@   requires r != nil
+//@   ensures [oversize] old(sumlen(lens(v), len(v)) > r.config.mtu) ==> ret != nil
+//@   fnspec tellTransform:
+//@     pure
+//@
+//@ func (*SecureRealm).ask
+//@   noframe
+//@   requires r != nil
+//@   ensures [oversize] old(sumlen(lens(v), len(v)) > r.config.mtu) ==> ret1 != nil
+//@   ensures [negative] ret1 == nil ==> ret0 >= 0
+//@   before call (*AskHub).Deliver:
+//@     assert [payload] len(arg3.Payload) == sumlen(lens(v), len(v)) && arg3.Src == src && arg3.Dst == dst && arg2 == resp
